@@ -858,6 +858,18 @@ pub fn explore(rep: &Report, prop: &str, th: bool) -> Explored {
                         acc.stats.executions += 1;
                     }
                 }
+                // the whole input in one flushing call (the flush point lies right behind whatever the
+                // compressor cut by itself near the end of the input), then Finish
+                for &f1 in &[F_SYNC, F_PARTIAL, F_FULL] {
+                    let mut st = m.init();
+                    let a = Act { k: REST, cap: LARGE, flush: f1 };
+                    let mut path = vec![a];
+                    acc.stats.transitions += 1;
+                    if m.step(&mut st, a, &path) {
+                        m.complete(&mut st, &mut path);
+                    }
+                    acc.stats.executions += 1;
+                }
                 acc.runs += 1;
                 for (k, v) in m.cov.lock().unwrap().iter() {
                     *acc.cov.entry(k).or_insert(0) += v;
